@@ -171,7 +171,14 @@ def layer_table(plan: dict[str, Any]) -> list[dict[str, Any]]:
     """Global list of layers (3 per block: column, activation, row)."""
     out = []
     H, H2 = plan['hidden'], plan['inner']
+    plain = set(plan.get('plain_stages') or [])
     for blk in range(plan['pipe'] * plan['blocks']):
+        if blk // plan['blocks'] in plain:
+            # a stage without any K-FAC layer (norms, plain linears, ...)
+            out.append({'kind': 'plain', 'in': H, 'out': H})
+            out.append({'kind': 'act'})
+            out.append({'kind': 'plain', 'in': H, 'out': H})
+            continue
         out.append({'kind': 'col', 'in': H, 'out': H2,
                     'bias': plan['bias_col']})
         out.append({'kind': 'act'})
@@ -252,6 +259,15 @@ class NeoxEnv:
             def build() -> torch.nn.Module:
                 if spec['kind'] == 'act':
                     return torch.nn.Tanh()
+                if spec['kind'] == 'plain':
+                    lin = torch.nn.Linear(spec['in'], spec['out'])
+                    g = torch.Generator().manual_seed(
+                        _mix(plan['model_seed'], idx, 5))
+                    with torch.no_grad():
+                        lin.weight.copy_(torch.randn(
+                            lin.weight.shape, generator=g) / spec['in'] ** .5)
+                        lin.bias.zero_()
+                    return lin
                 w, b = full_weights(plan, idx, spec, 0)
                 cls = ColumnParallelLinear if spec['kind'] == 'col' \
                     else RowParallelLinear
@@ -263,7 +279,7 @@ class NeoxEnv:
             topology=topo)
         self.local = {
             int(n): m for n, m in self.model.named_children()
-            if table[int(n)]['kind'] != 'act'}
+            if table[int(n)]['kind'] in ('col', 'row')}
         self.caps: dict[str, dict[str, list]] = {}
         self.capturing = False
         for idx, m in self.local.items():
@@ -711,6 +727,8 @@ def gen_neox_plan(rng: random.Random, tier: str, *, restarts: float,
         # ('2' and '12'), which name-matching code must not confuse
         'blocks': rng.choice([1, 1, 2, 3, 5, 6] if pp == 1
                              else [1, 1, 2, 3]),
+        'plain_stages': [rng.randrange(pp)] if pp > 1
+        and rng.random() < 0.3 else [],
         'bias_col': rng.random() < 0.6, 'bias_row': rng.random() < 0.6,
         'hps': hps, 'acc': acc, 'hook': hook,
         'loss_gain': rng.choice([1.0, 3.0]),
